@@ -81,6 +81,8 @@ type SimNode struct {
 	ffDone          bool // has reset itself through fast-forward at least once
 	stalled         bool // reported an insertion error after fast-forward (C13 guard)
 	leaving         bool
+	armEventRun     int
+	eventRun        int
 	left            bool
 
 	// bookkeeping for oracles
